@@ -75,6 +75,8 @@ def pcC (cfg : Cfg) (c : Core) (th : Th) : Prop :=
   | .r62 _ cpos => cpos = c.cseq
   | .r63c _ cpos k j acc => cpos = c.cseq ∧ cpos + k ≤ c.pseq ∧ j ≤ k ∧ acc.reverse = segment cfg.src cpos j
   | .r64 _ cpos acc => cpos = c.cseq ∧ cpos + acc.length ≤ c.pseq ∧ acc.reverse = segment cfg.src cpos acc.length
+  | .r65 _ cpos acc | .r66 _ cpos acc | .r67 _ cpos acc =>
+    cpos + acc.length ≤ c.pseq ∧ acc.reverse = segment cfg.src cpos acc.length
   | .p81 _ _ cpos | .p82 _ _ cpos | .p83 _ _ cpos | .p84 _ _ cpos | .p85 _ _ cpos | .p86 _ _ cpos
   | .p86w _ _ cpos | .p87 _ _ cpos => cpos = c.cseq
   | .p88 w n cpos ppos => cpos = c.cseq ∧ ppos ≤ c.pseq ∧ mustWait w n cpos ppos = false
@@ -125,7 +127,8 @@ theorem CInv_stable (cfg : Cfg) (c c' : Core) (th : Th) (h : CInv cfg c th)
     all_goals (first
       | exact h1
       | (obtain ⟨a, b, c, d⟩ := h1; exact ⟨a, Nat.le_trans b hp, c, d⟩)
-      | (obtain ⟨a, b, c⟩ := h1; exact ⟨a, Nat.le_trans b hp, c⟩))
+      | (obtain ⟨a, b, c⟩ := h1; exact ⟨a, Nat.le_trans b hp, c⟩)
+      | (obtain ⟨a, b⟩ := h1; exact ⟨Nat.le_trans a hp, b⟩))
   · unfold viewOK at h2 ⊢
     split at h2
     all_goals (first
@@ -403,5 +406,409 @@ theorem prod_data (cfg : Cfg) (base : Nat) (sh sh' : Sh) (th th' : Th)
       · show sh.pseq + j ≤ sh.gate + cfg.size
         omega
   all_goals (first | (simp [dataPc] at hd; done) | (simp [pcRole, roleOK] at hr; done))
+
+/-! ### steps: consumer -/
+
+theorem read_acc (cfg : Cfg) (buf : Array UInt8) (cseq pseq cpos k j : Nat) (acc : List UInt8)
+    (hcells : ∀ i, cseq ≤ i → i < pseq → rd buf (cfg.idx i) = cfg.src i)
+    (h1 : cpos = cseq) (h2 : cpos + k ≤ pseq) (hj : j < k) (ha : acc.reverse = segment cfg.src cpos j) :
+    (rd buf (cfg.idx (cpos + j)) :: acc).reverse = segment cfg.src cpos (j + 1) := by
+  rw [List.reverse_cons, ha, segment_succ, hcells (cpos + j) (by omega) (by omega)]
+
+theorem acc_len (src : Nat → UInt8) (cpos j : Nat) (acc : List UInt8) (ha : acc.reverse = segment src cpos j) :
+    acc.length = j := by
+  have := congrArg List.length ha
+  simpa [segment_length] using this
+
+theorem cInv_startCall (cfg : Cfg) (base : Nat) (c : Core) (th : Th) (call : Call) (hg : Glob cfg base c)
+    (hi : CInv cfg c th) (ha : Tid.c.allowed call = true) : CInv cfg c (startCall cfg th call) := by
+  obtain ⟨hpc, hv, hpd⟩ := hi
+  have hnil : ([] : List UInt8) = segment cfg.src c.cseq ([] : List UInt8).length ∧ c.cseq + ([] : List UInt8).length ≤ c.pseq :=
+    ⟨by simp [segment_zero], by simpa using hg.cp⟩
+  cases call <;> simp only [startCall, enterWfs, wfsErr, Th.goto, Th.ret]
+  case read n => exact ⟨trivial, trivial, hnil⟩
+  case peek n => split <;> exact ⟨trivial, trivial, hnil⟩
+  case rwait n => split <;> exact ⟨trivial, trivial, hnil⟩
+  case use =>
+    split
+    · rename_i cpos m hvw
+      rw [hvw] at hv
+      exact ⟨⟨hv.1, hv.2, Nat.zero_le _, by simp [segment_zero]⟩, by rw [hvw]; exact hv, hpd⟩
+    · rename_i cpos bytes hvw
+      rw [hvw] at hv
+      obtain ⟨a, b, d⟩ := hv
+      refine ⟨trivial, by rw [hvw]; exact ⟨a, b, d⟩, ?_⟩
+      subst a
+      exact ⟨d, b⟩
+    · exact ⟨trivial, hv, hpd⟩
+  case commit n =>
+    split
+    · exact ⟨trivial, trivial, hpd⟩
+    · exact ⟨Nat.min_le_right _ _, trivial, hpd⟩
+  case close => exact ⟨trivial, hv, hpd⟩
+  case len => exact ⟨trivial, hv, hpd⟩
+  all_goals (simp [Tid.allowed, Call.isConsumer] at ha)
+
+theorem cons_frame (cfg : Cfg) (base : Nat) (sh sh' : Sh) (th th' : Th)
+    (hg : Glob cfg base sh.core) (hi : CInv cfg sh.core th) (hok : ThOK .c th)
+    (hs : tstep cfg sh .c th = some (sh', th')) (hd : dataPc th.pc = false) : CInv cfg sh.core th' := by
+  have hcr := tstep_crash _ _ _ _ _ hs
+  obtain ⟨hp, hc, hr⟩ := hok
+  obtain ⟨hpc, hv, hpd⟩ := hi
+  have hcells := hg.cells
+  obtain ⟨pc, prog, cur, slice, filled, view, pending, res⟩ := th
+  simp only at hp hc hr hd hpc hv hpd
+  simp only [Sh.core] at hcells hpc hv hpd
+  cases pc
+  case idle =>
+    simp only [tstep, Bool.false_eq_true, ↓reduceIte, hcr] at hs
+    cases prog with
+    | nil => simp at hs
+    | cons call rest =>
+      simp only [Option.some.injEq, Prod.mk.injEq] at hs
+      obtain ⟨rfl, rfl⟩ := hs
+      exact cInv_startCall cfg base _ _ call hg ⟨trivial, hv, hpd⟩ (hp call (List.mem_cons_self ..))
+  case l21 cpos =>
+    simp only [tstep, Bool.false_eq_true, ↓reduceIte, hcr] at hs
+    repeat' split at hs
+    all_goals (simp only [Option.some.injEq, Prod.mk.injEq] at hs; obtain ⟨rfl, rfl⟩ := hs; exact ⟨trivial, hv, hpd⟩)
+  case r61 n =>
+    tstep_norm
+    obtain ⟨rfl, rfl⟩ := hs
+    exact ⟨rfl, hv, hpd⟩
+  case r62 n cpos =>
+    simp only [pcC] at hpc
+    simp only [tstep, Bool.false_eq_true, ↓reduceIte, hcr] at hs
+    split at hs
+    · simp only [Option.some.injEq, Prod.mk.injEq] at hs; obtain ⟨rfl, rfl⟩ := hs
+      refine ⟨⟨hpc, ?_, Nat.zero_le _, by simp [segment_zero]⟩, hv, hpd⟩
+      show cpos + min n (cfg.size - cfg.idx cpos) ≤ sh.pseq
+      have := Nat.min_le_left n (cfg.size - cfg.idx cpos)
+      omega
+    · split at hs
+      · simp only [Option.some.injEq, Prod.mk.injEq] at hs; obtain ⟨rfl, rfl⟩ := hs
+        refine ⟨⟨hpc, ?_, Nat.zero_le _, by simp [segment_zero]⟩, hv, hpd⟩
+        show cpos + (if cfg.idx cpos + (sh.pseq - cpos) < cfg.size then min n (sh.pseq - cpos) else min n (cfg.size - cfg.idx cpos)) ≤ sh.pseq
+        split
+        · have := Nat.min_le_right n (sh.pseq - cpos); omega
+        · have := Nat.min_le_right n (cfg.size - cfg.idx cpos); omega
+      · simp only [Option.some.injEq, Prod.mk.injEq] at hs; obtain ⟨rfl, rfl⟩ := hs
+        exact ⟨trivial, hv, hpd⟩
+  case r63c b cpos k j acc =>
+    simp only [pcC] at hpc
+    obtain ⟨e1, e2, e3, e4⟩ := hpc
+    tstep_norm
+    rcases hs with ⟨h1, rfl, rfl⟩ | ⟨h1, rfl, rfl⟩
+    · exact ⟨⟨e1, e2, by omega, read_acc cfg sh.buf sh.cseq sh.pseq cpos k j acc hcells e1 e2 h1 e4⟩, hv, hpd⟩
+    · have hj : j = k := by omega
+      subst hj
+      have hl := acc_len _ _ _ _ e4
+      exact ⟨⟨e1, by rw [hl]; exact e2, by rw [hl]; exact e4⟩, hv, hpd⟩
+  case p80 w n =>
+    tstep_norm
+    obtain ⟨rfl, rfl⟩ := hs
+    exact ⟨rfl, hv, hpd⟩
+  case p83 w n cpos =>
+    simp only [pcC] at hpc
+    tstep_norm
+    rcases hs with ⟨h1, rfl, rfl⟩ | ⟨h1, rfl, rfl⟩
+    · exact ⟨hpc, hv, hpd⟩
+    · exact ⟨⟨hpc, Nat.le_refl _, by simpa using h1⟩, hv, hpd⟩
+  case p87 w n cpos =>
+    simp only [pcC] at hpc
+    tstep_norm
+    rcases hs with ⟨h1, rfl, rfl⟩ | ⟨h1, rfl, rfl⟩
+    · exact ⟨hpc, hv, hpd⟩
+    · exact ⟨⟨hpc, Nat.le_refl _, by simpa using h1⟩, hv, hpd⟩
+  case p88 w n cpos ppos =>
+    simp only [pcC] at hpc
+    obtain ⟨e1, e2, e3⟩ := hpc
+    have hm : cpos + (if w = true then n else if ppos - cpos ≥ n then n else ppos - cpos) ≤ sh.pseq := by
+      unfold mustWait at e3
+      cases w
+      · simp only [Bool.false_eq_true, ↓reduceIte, decide_eq_false_iff_not, Nat.not_le, ge_iff_le] at e3 ⊢
+        split <;> omega
+      · simp only [↓reduceIte, decide_eq_false_iff_not, Nat.not_lt, gt_iff_lt] at e3 ⊢
+        omega
+    tstep_norm
+    rcases hs with ⟨h1, rfl, rfl⟩ | ⟨h1, rfl, rfl⟩
+    · exact ⟨⟨e1, hm, Nat.zero_le _, by simp [segment_zero]⟩, hv, hpd⟩
+    · exact ⟨trivial, ⟨e1, hm⟩, hpd⟩
+  case p89c w cpos m err j acc =>
+    simp only [pcC] at hpc
+    obtain ⟨e1, e2, e3, e4⟩ := hpc
+    tstep_norm
+    rcases hs with ⟨h1, rfl, rfl⟩ | ⟨h1, rfl, rfl⟩
+    · exact ⟨⟨e1, e2, by omega, read_acc cfg sh.buf sh.cseq sh.pseq cpos m j acc hcells e1 e2 h1 e4⟩, hv, hpd⟩
+    · have hj : j = m := by omega
+      subst hj
+      refine ⟨trivial, ⟨e1, ?_, ?_⟩, hpd⟩
+      · show cpos + acc.reverse.length ≤ sh.pseq
+        rw [e4, segment_length]; exact e2
+      · show acc.reverse = segment cfg.src cpos acc.reverse.length
+        rw [e4, segment_length]
+  case k100 n =>
+    simp only [pcC] at hpc
+    tstep_norm
+    obtain ⟨rfl, rfl⟩ := hs
+    exact ⟨⟨rfl, hpc⟩, hv, hpd⟩
+  case k101 n cpos =>
+    simp only [pcC] at hpc
+    tstep_norm
+    rcases hs with ⟨h1, rfl, rfl⟩ | ⟨h1, rfl, rfl⟩
+    · exact ⟨⟨hpc.1, h1, hpc.2⟩, hv, hpd⟩
+    · exact ⟨trivial, hv, hpd⟩
+  case u0 cpos m j acc =>
+    simp only [pcC] at hpc
+    obtain ⟨e1, e2, e3, e4⟩ := hpc
+    tstep_norm
+    rcases hs with ⟨h1, rfl, rfl⟩ | ⟨h1, rfl, rfl⟩
+    · exact ⟨⟨e1, e2, by omega, read_acc cfg sh.buf sh.cseq sh.pseq cpos m j acc hcells e1 e2 h1 e4⟩, hv, hpd⟩
+    · have hj : j = m := by omega
+      subst hj
+      refine ⟨trivial, hv, ⟨?_, ?_⟩⟩
+      · show acc.reverse = segment cfg.src sh.cseq acc.reverse.length
+        rw [e4, segment_length, e1]
+      · show sh.cseq + acc.reverse.length ≤ sh.pseq
+        rw [e4, segment_length, ← e1]; exact e2
+  all_goals (first | (simp [dataPc] at hd; done) | (simp [pcRole, roleOK] at hr; done) | skip)
+  all_goals tstep_norm
+  all_goals tstep_elim
+  all_goals (first
+    | exact ⟨trivial, hv, hpd⟩
+    | exact ⟨hpc, hv, hpd⟩)
+
+theorem cons_data (cfg : Cfg) (base : Nat) (sh sh' : Sh) (th th' : Th)
+    (hg : Glob cfg base sh.core) (hi : CInv cfg sh.core th) (hok : ThOK .c th)
+    (hs : tstep cfg sh .c th = some (sh', th')) (hd : dataPc th.pc = true) :
+    Glob cfg base sh'.core ∧ CInv cfg sh'.core th' ∧ sh'.core.buf = sh.core.buf ∧ sh'.core.pseq = sh.core.pseq ∧
+      sh'.core.gate = sh.core.gate ∧ sh.core.cseq ≤ sh'.core.cseq := by
+  have hcr := tstep_crash _ _ _ _ _ hs
+  obtain ⟨hp, hc, hr⟩ := hok
+  obtain ⟨hpc, hv, hpd⟩ := hi
+  obtain ⟨hbs, hcp, hpcs, hgc, hcells, hbase, hgot⟩ := hg
+  obtain ⟨pc, prog, cur, slice, filled, view, pending, res⟩ := th
+  simp only [Sh.core] at hbs hcp hpcs hgc hcells hbase hgot hpc hv hpd
+  cases pc
+  case r64 b cpos acc =>
+    simp only [pcC] at hpc
+    obtain ⟨e1, e2, e3⟩ := hpc
+    tstep_norm
+    obtain ⟨rfl, rfl⟩ := hs
+    subst e1
+    refine ⟨⟨hbs, e2, ?_, ?_, ?_, ?_, ?_⟩, ⟨⟨e2, e3⟩, trivial, ⟨(segment_zero _ _).symm, ?_⟩⟩, rfl, rfl, rfl, ?_⟩
+    · show sh.pseq ≤ sh.cseq + acc.length + cfg.size
+      omega
+    · show sh.gate ≤ sh.cseq + acc.length
+      omega
+    · intro i h1 h2
+      exact hcells i (Nat.le_trans (Nat.le_add_right _ _) h1) h2
+    · show base ≤ sh.cseq + acc.length
+      omega
+    · show (acc ++ sh.gotRev).reverse = segment cfg.src base (sh.cseq + acc.length - base)
+      rw [List.reverse_append, hgot, e3, show sh.cseq + acc.length - base = (sh.cseq - base) + acc.length by omega,
+        segment_append, show base + (sh.cseq - base) = sh.cseq by omega]
+    · show sh.cseq + acc.length + ([] : List UInt8).length ≤ sh.pseq
+      simpa using e2
+    · show sh.cseq ≤ sh.cseq + acc.length
+      omega
+  case k102 n cpos =>
+    simp only [pcC] at hpc
+    obtain ⟨e1, e2, e3⟩ := hpc
+    have e3' : n ≤ pending.length := e3
+    tstep_norm
+    obtain ⟨rfl, rfl⟩ := hs
+    subst e1
+    have hpd1 : pending = segment cfg.src sh.cseq pending.length := hpd.1
+    refine ⟨⟨hbs, e2, ?_, ?_, ?_, ?_, ?_⟩, ⟨trivial, trivial, ⟨(segment_zero _ _).symm, ?_⟩⟩, rfl, rfl, rfl, ?_⟩
+    · show sh.pseq ≤ sh.cseq + n + cfg.size
+      omega
+    · show sh.gate ≤ sh.cseq + n
+      omega
+    · intro i h1 h2
+      exact hcells i (Nat.le_trans (Nat.le_add_right _ _) h1) h2
+    · show base ≤ sh.cseq + n
+      omega
+    · show ((pending.take n).reverse ++ sh.gotRev).reverse = segment cfg.src base (sh.cseq + n - base)
+      rw [List.reverse_append, List.reverse_reverse, hgot, hpd1, segment_take _ _ _ _ e3',
+        show sh.cseq + n - base = (sh.cseq - base) + n by omega,
+        segment_append, show base + (sh.cseq - base) = sh.cseq by omega]
+    · show sh.cseq + n + ([] : List UInt8).length ≤ sh.pseq
+      simpa using e2
+    · show sh.cseq ≤ sh.cseq + n
+      omega
+  all_goals (first | (simp [dataPc] at hd; done) | (simp [pcRole, roleOK] at hr; done))
+
+/-! ### the invariant of the whole system -/
+
+theorem role_any_noData (i : Nat) (pc : Pc) (h : roleOK (.k i) (pcRole pc) = true) : dataPc pc = false := by
+  cases pc <;> first | rfl | (simp [pcRole, roleOK] at h)
+
+/-- the safety invariant of the whole system; `base` = stream position at which the ring started -/
+structure RInv (cfg : Cfg) (base : Nat) (s : St) : Prop where
+  glob : Glob cfg base s.sh.core
+  okP : ThOK .p s.P
+  okC : ThOK .c s.C
+  okK : ∀ i th, s.K[i]? = some th → ThOK (.k i) th
+  invP : PInv cfg s.sh.core s.P
+  invC : CInv cfg s.sh.core s.C
+
+/-- what a step may do to the core, by role (guarantee) -/
+def CoreStep (c c' : Core) : Prop :=
+  c.cseq ≤ c'.cseq ∧ c.pseq ≤ c'.pseq
+
+theorem inv_step (cfg : Cfg) (base : Nat) (s s' : St) (t : Tid) (h : RInv cfg base s)
+    (hs : step cfg s t = some s') : RInv cfg base s' := by
+  obtain ⟨hg, hP, hC, hK, hiP, hiC⟩ := h
+  unfold step at hs
+  cases t with
+  | p =>
+    simp only [St.getTh] at hs
+    split at hs
+    · simp at hs
+    · rename_i sh' th' hst
+      simp only [Option.some.injEq] at hs
+      subst hs
+      simp only [St.setTh]
+      have hok := thOK_step cfg .p _ _ _ _ hP hst
+      by_cases hd : dataPc s.P.pc = true
+      · obtain ⟨g', p', e1, e2, e3⟩ := prod_data cfg base _ _ _ _ hg hiP hP hst hd
+        exact ⟨g', hok, hC, hK, p', CInv_stable cfg _ _ _ hiC e1 e2⟩
+      · have hd' : dataPc s.P.pc = false := by simpa using hd
+        have hc := core_frame cfg _ _ _ _ _ hst hd'
+        have p' := prod_frame cfg base _ _ _ _ hg hiP hP hst hd'
+        refine ⟨?_, hok, hC, hK, ?_, ?_⟩ <;> (show _ ; rw [hc]) <;> assumption
+  | c =>
+    simp only [St.getTh] at hs
+    split at hs
+    · simp at hs
+    · rename_i sh' th' hst
+      simp only [Option.some.injEq] at hs
+      subst hs
+      simp only [St.setTh]
+      have hok := thOK_step cfg .c _ _ _ _ hC hst
+      by_cases hd : dataPc s.C.pc = true
+      · obtain ⟨g', c', e1, e2, e3, e4⟩ := cons_data cfg base _ _ _ _ hg hiC hC hst hd
+        exact ⟨g', hP, hok, hK, PInv_stable cfg _ _ _ hiP e1 e2 e3 e4, c'⟩
+      · have hd' : dataPc s.C.pc = false := by simpa using hd
+        have hc := core_frame cfg _ _ _ _ _ hst hd'
+        have c' := cons_frame cfg base _ _ _ _ hg hiC hC hst hd'
+        refine ⟨?_, hP, hok, hK, ?_, ?_⟩ <;> (show _ ; rw [hc]) <;> assumption
+  | k i =>
+    simp only [St.getTh] at hs
+    split at hs
+    · simp at hs
+    · rename_i th hth
+      split at hs
+      · simp at hs
+      · rename_i sh' th' hst
+        simp only [Option.some.injEq] at hs
+        subst hs
+        simp only [St.setTh]
+        have hok0 := hK i th hth
+        have hok := thOK_step cfg (.k i) _ _ _ _ hok0 hst
+        have hc := core_frame cfg _ _ _ _ _ hst (role_any_noData i _ hok0.role)
+        refine ⟨?_, hP, hC, ?_, ?_, ?_⟩
+        · show Glob cfg base sh'.core
+          rw [hc]; exact hg
+        · intro j th2 hj
+          show ThOK (.k j) th2
+          have hj' : (s.K.set i th')[j]? = some th2 := hj
+          rw [List.getElem?_set] at hj'
+          split at hj'
+          · rename_i hij
+            split at hj'
+            · simp only [Option.some.injEq] at hj'; subst hj'; subst hij; exact hok
+            · simp at hj'
+          · exact hK j th2 hj'
+        · show PInv cfg sh'.core s.P
+          rw [hc]; exact hiP
+        · show CInv cfg sh'.core s.C
+          rw [hc]; exact hiC
+
+/-- well-typed thread programs: producer calls on `p`, consumer calls on `c`, closers only close (or ask the length) -/
+structure ProgsOK (progP progC : List Call) (progsK : List (List Call)) : Prop where
+  p : ∀ c ∈ progP, Tid.p.allowed c = true
+  c : ∀ c ∈ progC, Tid.c.allowed c = true
+  k : ∀ pr ∈ progsK, ∀ c ∈ pr, (Tid.k 0).allowed c = true
+
+theorem rinv_init (cfg : Cfg) (adv gate : Nat) (progP progC : List Call) (progsK : List (List Call))
+    (hgate : gate ≤ adv) (hok : ProgsOK progP progC progsK) :
+    RInv cfg adv (mkInit cfg adv gate progP progC progsK) := by
+  refine ⟨⟨?_, Nat.le_refl _, Nat.le_add_right _ _, hgate, ?_, Nat.le_refl _, ?_⟩, ⟨hok.p, nofun, rfl⟩, ⟨hok.c, nofun, rfl⟩, ?_,
+    ⟨trivial, nofun, ⟨Filled_zero _ _ _, fun h => absurd h (Nat.lt_irrefl 0)⟩⟩,
+    ⟨trivial, trivial, ⟨(segment_zero _ _).symm, Nat.le_refl _⟩⟩⟩
+  · show (Array.replicate cfg.size (0 : UInt8)).size = cfg.size
+    simp
+  · intro i h1 h2
+    exact absurd h2 (Nat.not_lt.mpr h1)
+  · show ([] : List UInt8).reverse = segment cfg.src adv (adv - adv)
+    simp [segment_zero]
+  · intro i th hi
+    have hi' : (progsK.map (fun p => ({ prog := p } : Th)))[i]? = some th := hi
+    rw [List.getElem?_map] at hi'
+    cases hpr : progsK[i]? with
+    | none => simp [hpr] at hi'
+    | some pr =>
+      simp only [hpr, Option.map_some, Option.some.injEq] at hi'
+      subst hi'
+      exact ⟨fun c hc => hok.k pr (List.mem_of_getElem? hpr) c hc, nofun, rfl⟩
+
+theorem rinv_run (cfg : Cfg) (base : Nat) (s : St) (sched : List Tid) (h : RInv cfg base s) :
+    RInv cfg base (run cfg s sched) := by
+  induction sched generalizing s with
+  | nil => exact h
+  | cons t ts ih =>
+    unfold run
+    apply ih
+    cases hs : step cfg s t with
+    | none => exact h
+    | some s' => exact inv_step cfg base s s' t h hs
+
+/-- which parts of the core a step of thread `t` leaves alone -/
+theorem step_core (cfg : Cfg) (base : Nat) (s s' : St) (t : Tid) (h : RInv cfg base s)
+    (hs : step cfg s t = some s') :
+    (t = .c → s'.sh.buf = s.sh.buf) ∧ (t ≠ .c → s'.sh.cseq = s.sh.cseq ∧ s.sh.pseq ≤ s'.sh.pseq) := by
+  obtain ⟨hg, hP, hC, hK, hiP, hiC⟩ := h
+  unfold step at hs
+  cases t with
+  | p =>
+    simp only [St.getTh] at hs
+    split at hs
+    · simp at hs
+    · rename_i sh' th' hst
+      simp only [Option.some.injEq] at hs
+      subst hs
+      refine ⟨nofun, fun _ => ?_⟩
+      by_cases hd : dataPc s.P.pc = true
+      · obtain ⟨g', p', e1, e2, e3⟩ := prod_data cfg base _ _ _ _ hg hiP hP hst hd
+        exact ⟨e1, e2⟩
+      · have hc := core_frame cfg _ _ _ _ _ hst (by simpa using hd)
+        exact ⟨congrArg Core.cseq hc, Nat.le_of_eq (congrArg Core.pseq hc).symm⟩
+  | c =>
+    simp only [St.getTh] at hs
+    split at hs
+    · simp at hs
+    · rename_i sh' th' hst
+      simp only [Option.some.injEq] at hs
+      subst hs
+      refine ⟨fun _ => ?_, fun h => absurd rfl h⟩
+      by_cases hd : dataPc s.C.pc = true
+      · obtain ⟨g', c', e1, e2, e3, e4⟩ := cons_data cfg base _ _ _ _ hg hiC hC hst hd
+        exact e1
+      · have hc := core_frame cfg _ _ _ _ _ hst (by simpa using hd)
+        exact congrArg Core.buf hc
+  | k i =>
+    simp only [St.getTh] at hs
+    split at hs
+    · simp at hs
+    · rename_i th hth
+      split at hs
+      · simp at hs
+      · rename_i sh' th' hst
+        simp only [Option.some.injEq] at hs
+        subst hs
+        have hc := core_frame cfg _ _ _ _ _ hst (role_any_noData i _ (hK i th hth).role)
+        exact ⟨nofun, fun _ => ⟨congrArg Core.cseq hc, Nat.le_of_eq (congrArg Core.pseq hc).symm⟩⟩
 
 end Mqtt.Proofs.Ring
